@@ -2,11 +2,11 @@
    block store, every local write / delivery with the row, head set and merge result observed right
    after it) is replayed on the operational model of Crdt/Model.v. *)
 From Coq Require Import List ZArith Arith Bool.
-From Verif Require Export GoSem Bytes Model Exact.
+From Verif Require Export GoSem Bytes Model Exact Versioned.
 Import ListNotations.
 Local Open Scope nat_scope.
 
-Inductive skind := SLocal | SDeliver | SNoop.
+Inductive skind := SLocal | SDeliver | SNoop | SVersioned.
 Inductive fobs := OReg (v : list Z) | OCtr (v : Z).
 
 Record sstep := mkS {
@@ -45,17 +45,22 @@ Fixpoint set_nth {A} (n : nat) (x : A) (l : list A) : list A :=
   end.
 
 (* one step: returns the new replica list and whether the observation agrees *)
+(* time-travel read at commit c: replay of c and its ancestors into an empty replica (Crdt/Versioned.v) *)
 Definition run_step (u : universe) (rs : list rstate) (st : sstep) : list rstate * bool :=
   let s := nth (s_node st) rs rinit in
   let c := Z.to_nat (s_cid st) in
+  match s_kind st with
+  | SVersioned => (rs, check_row (r_vs (versioned u c)) (s_row st))
+  | _ =>
   let '(s', pre) :=
     match s_kind st with
     | SLocal => (local u s c, local_ok u s c)
     | SDeliver => (deliver u s c, true)
-    | SNoop => (s, true)
+    | _ => (s, true)
     end in
   let ok := pre && negb (s_err st) && check_row (r_vs s') (s_row st) && same_set (r_heads s') (s_heads st) in
-  (set_nth (s_node st) s' rs, ok).
+  (set_nth (s_node st) s' rs, ok)
+  end.
 
 Fixpoint run_steps (u : universe) (rs : list rstate) (l : list sstep) (i : Z) : option Z :=
   match l with
